@@ -180,6 +180,17 @@ func groupCatalogue(seed int64) ([]groupFile, error) {
 	// Where() through a local helper of the group
 	shapes("Where(helper(m[x]))", "isPure := func(v dsl.Var) bool { return v.Pure && !v.Const }",
 		RuleDesc{Report: "msg", Where: `isPure(m["x"])`, Atoms: []Atom{bound, {Src: `m["x"].Const`, Vars: []string{"x"}, Uses: [][2]string{{"VarConst", "x"}}, Extra: []string{}}}}, has, lacks, mixed)
+	// equal-named local helpers of different arity in consecutive groups: the helper table is the group's own
+	ok1 := "ok := func(v dsl.Var) bool { return v.Pure }"
+	ok2 := "ok := func(v dsl.Var, w dsl.Var) bool { return v.Pure && w.Pure }"
+	py := Atom{Src: `m["y"].Pure`, Vars: []string{"y"}, Uses: [][2]string{{"VarPure", "y"}}, Extra: []string{}}
+	hr1 := RuleDesc{Report: "msg", Where: `ok(m["x"])`, Atoms: []Atom{bound}}.with(has[0])
+	hr2 := RuleDesc{Report: "msg", Where: `ok(m["x"], m["y"])`, Atoms: []Atom{bound, py}}.with(has[0])
+	out = append(out,
+		groupFile{"equal-named helpers in consecutive groups: one parameter, then two", []GroupDesc{{Pre: ok1, Rules: []RuleDesc{hr1}}, {Pre: ok2, Rules: []RuleDesc{hr2}}}, false},
+		groupFile{"equal-named helpers in consecutive groups: two parameters, then one", []GroupDesc{{Pre: ok2, Rules: []RuleDesc{hr2}}, {Pre: ok1, Rules: []RuleDesc{hr1}}}, false},
+		groupFile{"equal-named helpers in consecutive groups: same parameters (control)", []GroupDesc{{Pre: ok1, Rules: []RuleDesc{hr1}}, {Pre: ok1, Rules: []RuleDesc{hr1}}}, false},
+	)
 	// a compound Where(), suggestions
 	cmp := RuleDesc{Report: "msg", Suggest: "$y", Where: `m["x"].Pure && !m["x"].Const`, Atoms: []Atom{bound, {Src: `m["x"].Const`, Vars: []string{"x"}, Uses: [][2]string{{"VarConst", "x"}}, Extra: []string{}}}}
 	shapes("Where(a && !b), Suggest", "", cmp, has, lacks, mixed)
